@@ -214,6 +214,13 @@ func verifC06Step() {
 		verifAssert(err == nil && ng != nil, "create group")
 		if ng != nil {
 			verifGroupInvariant(fq, ng, "new group")
+			// (FanOutQueue.GetOrCreateConsumerGroup: "creates a new ConsumerGroup with consume seq and ack seq == queue ack seq")
+			verifAssert(ng.AcknowledgedSeq() >= fq.Queue().AcknowledgedSeq(), "a new group never starts below the queue's acknowledged position")
+			// what it is handed next is a message that can still be read (messages at or below the queue's
+			// acknowledged position may already be collected)
+			if s := ng.(*consumerGroup).consume(); s != SeqNoNewMessageAvailable {
+				verifAssert(s > fq.Queue().AcknowledgedSeq() && s <= fq.Queue().AppendedSeq(), "the first sequence a new group is handed lies in the readable range (above the queue's acknowledged position)")
+			}
 		}
 	case 6: // gc removes only pages below the page of the queue's acknowledged position
 		fs := verifCurrentFS
